@@ -6,10 +6,12 @@ package jit
 import (
 	"encoding/json"
 	"fmt"
+	"sort"
 	"strings"
 	"testing"
 	"time"
 
+	"github.com/anishathalye/porcupine"
 	"github.com/glyphlang/glyph/pkg/ast"
 	"github.com/glyphlang/glyph/pkg/compiler"
 	"github.com/glyphlang/glyph/pkg/parser"
@@ -162,6 +164,112 @@ type c15pass struct {
 	ret   *uint64 // 0 while in flight
 }
 
+// c15h is one completed JIT call on one route name, for the linearizability check: the cache is
+// specified as a sequential object keyed by route name (and, for specialised code, by the type
+// map): a compile call returns code of the definition it was passed (miss, or a tier upgrade, which
+// compiles the passed definition) or the code the cache holds; an invalidation empties the cache.
+type c15h struct {
+	client    int
+	name      string
+	kind      string // compile | ctypes | getunit | adaptive | inval | deopt
+	tkey      string
+	pv, out   int
+	flag      bool
+	call, ret uint64
+}
+
+func (h c15h) String() string {
+	switch h.kind {
+	case "compile":
+		return fmt.Sprintf("CompileRoute(%s, v%d) -> code of v%d", h.name, h.pv, h.out)
+	case "ctypes":
+		return fmt.Sprintf("CompileRouteWithTypes(%s, v%d, %s) -> code of v%d", h.name, h.pv, h.tkey, h.out)
+	case "getunit":
+		return fmt.Sprintf("GetUnit(%s) -> v%d", h.name, h.out)
+	case "adaptive":
+		return fmt.Sprintf("CheckAdaptiveRecompilation(%s, v%d) -> %v", h.name, h.pv, h.flag)
+	case "inval":
+		return fmt.Sprintf("InvalidateCache/ClearCache(%s)", h.name)
+	}
+	return fmt.Sprintf("RecordDeoptimization(%s)", h.name)
+}
+
+// c15state: the set of versions the unit cache may hold for one name (bit 0 = empty) and, per
+// type map, the set the specialisation cache may hold. Sets, because a tier upgrade is a legal but
+// not an obligatory outcome of a cache hit.
+type c15state struct {
+	unit  uint64
+	typed map[string]uint64
+}
+
+func (st c15state) encode() string {
+	var ks []string
+	for k, v := range st.typed {
+		if v != 1 {
+			ks = append(ks, fmt.Sprintf("%s=%d", k, v))
+		}
+	}
+	sort.Strings(ks)
+	return fmt.Sprintf("%d|%s", st.unit, strings.Join(ks, ";"))
+}
+
+func c15step(st c15state, h c15h) (bool, c15state) {
+	nt := map[string]uint64{}
+	for k, v := range st.typed {
+		nt[k] = v
+	}
+	ns := c15state{unit: st.unit, typed: nt}
+	bit := func(v int) uint64 { return uint64(1) << uint(v) }
+	switch h.kind {
+	case "compile":
+		// the cached code, or code of the passed definition (a miss, or a hit that upgraded the tier:
+		// an upgrade compiles the definition it was passed). Whether an upgrade was due is not
+		// modelled, so two concurrent misses that store different versions one over the other are
+		// accepted (the later store reads as an upgrade) — see DESIGN on what a black-box history
+		// can and cannot tell about a compile call that overlaps an invalidation.
+		if h.out != h.pv && (h.out == 0 || st.unit&bit(h.out) == 0) {
+			return false, st
+		}
+		ns.unit = bit(h.out)
+	case "getunit":
+		if st.unit&bit(h.out) == 0 {
+			return false, st
+		}
+		ns.unit = bit(h.out)
+	case "adaptive":
+		if h.flag {
+			if st.unit&^1 == 0 {
+				return false, st // nothing cached, nothing to recompile
+			}
+			ns.unit = bit(h.pv)
+		}
+	case "ctypes":
+		cur, ok := st.typed[h.tkey]
+		if !ok {
+			cur = 1
+		}
+		if h.out != h.pv && (h.out == 0 || cur&bit(h.out) == 0) {
+			return false, st
+		}
+		ns.typed[h.tkey] = bit(h.out)
+	case "inval":
+		ns.unit = 1
+		ns.typed = map[string]uint64{}
+	case "deopt":
+		ns.typed = map[string]uint64{}
+	}
+	return true, ns
+}
+
+func c15typesKey(t map[string]string) string {
+	var ks []string
+	for k, v := range t {
+		ks = append(ks, k+":"+v)
+	}
+	sort.Strings(ks)
+	return "{" + strings.Join(ks, ",") + "}"
+}
+
 func c15Run(s *sim.Sim, p *sim.Params) {
 	s.SetLimits(400_000, 0)
 	threshold := []int{1, 2, 4, 10}[s.Choose(sim.SWork, 4)]
@@ -181,6 +289,7 @@ func c15Run(s *sim.Sim, p *sim.Params) {
 	current := map[string]int{}
 	invals := map[string][]*c15inval{}
 	passes := map[string][]c15pass{}
+	var hist []c15h
 	names := c15names
 	if s.Choose(sim.SWork, 3) == 0 {
 		names = append(append([]string{}, c15ptrNames...), c15names[0])
@@ -202,7 +311,7 @@ func c15Run(s *sim.Sim, p *sim.Params) {
 		{"n": "int"}, {"n": "string"}, {"n": "int", "k": "int"}, {"n": "float"}, {"k": "int"}, {"n": "bool"}, {"y": "int", "n": "int"}, {},
 	}
 	// judge a bytecode handed out for `name` by a call invoked at `call` with definition version pv
-	judge := func(how, name string, pv int, call uint64, bc []byte, typed bool) {
+	judge := func(how, name string, pv int, call uint64, bc []byte, typed bool) int {
 		out, err := c15exec(bc)
 		if err != nil {
 			s.Fail("oracle", "undecodable:"+how, fmt.Sprintf("%s(%s) handed out bytecode that does not execute: %v", how, name, err))
@@ -249,6 +358,7 @@ func c15Run(s *sim.Sim, p *sim.Params) {
 				}
 			}
 		}
+		return mk.V
 	}
 	pass := func(name string, ver int, typed bool) *uint64 {
 		r := new(uint64)
@@ -263,9 +373,15 @@ func c15Run(s *sim.Sim, p *sim.Params) {
 		j.SetRecompileWindow(0)
 		s.Probe("hot-run")
 	}
+	// "churn" runs: every caller works on one route that keeps being redefined and invalidated, so
+	// that compilations started under one definition overlap the invalidation that follows the next
+	churn := !hot && s.Choose(sim.SWork, 4) == 0
+	if churn {
+		s.Probe("churn-run")
+	}
 	ntasks := 1 + s.Choose(sim.SWork, 5)
-	if hot && ntasks < 2 {
-		ntasks = 2
+	if (hot || churn) && ntasks < 2 {
+		ntasks = 2 + s.Choose(sim.SWork, 3)
 	}
 	var hs []*sim.Handle
 	for ti := 0; ti < ntasks; ti++ {
@@ -335,7 +451,8 @@ func c15Run(s *sim.Sim, p *sim.Params) {
 						s.Fail("oracle", "compile-error", fmt.Sprintf("CompileRoute(%s, v%d): %v", o.name, pv, err))
 					}
 					sample = append(sample, fmt.Sprintf("t%d [%d] CompileRoute(%s, v%d) -> %d bytes", ti, call, o.name, pv, len(bc)))
-					judge("CompileRoute", o.name, pv, call, bc, false)
+					out := judge("CompileRoute", o.name, pv, call, bc, false)
+					hist = append(hist, c15h{client: ti, name: o.name, kind: "compile", pv: pv, out: out, call: call, ret: *pr})
 				case "compile-types":
 					pv := current[o.name]
 					route := defs.get(s, o.name, pv)
@@ -347,7 +464,8 @@ func c15Run(s *sim.Sim, p *sim.Params) {
 						s.Fail("oracle", "compile-error", fmt.Sprintf("CompileRouteWithTypes(%s, v%d): %v", o.name, pv, err))
 					}
 					sample = append(sample, fmt.Sprintf("t%d [%d] CompileRouteWithTypes(%s, v%d, %v) -> %d bytes", ti, call, o.name, pv, o.types, len(bc)))
-					judge("CompileRouteWithTypes", o.name, pv, call, bc, true)
+					out := judge("CompileRouteWithTypes", o.name, pv, call, bc, true)
+					hist = append(hist, c15h{client: ti, name: o.name, kind: "ctypes", tkey: c15typesKey(o.types), pv: pv, out: out, call: call, ret: *pr})
 				case "record":
 					for k := 0; k < o.n; k++ {
 						j.RecordExecution(o.name, time.Duration(1+k)*time.Microsecond)
@@ -356,12 +474,17 @@ func c15Run(s *sim.Sim, p *sim.Params) {
 					pv := current[o.name]
 					route := defs.get(s, o.name, pv)
 					pr := pass(o.name, pv, false)
-					if _, err := j.CheckAdaptiveRecompilation(o.name, route); err != nil {
+					call := s.Stamp()
+					did, err := j.CheckAdaptiveRecompilation(o.name, route)
+					if err != nil {
 						s.Fail("oracle", "compile-error", "CheckAdaptiveRecompilation: "+err.Error())
 					}
 					*pr = s.Stamp()
+					hist = append(hist, c15h{client: ti, name: o.name, kind: "adaptive", pv: pv, flag: did, call: call, ret: *pr})
 				case "deopt":
+					call := s.Stamp()
 					j.RecordDeoptimization(o.name, "guard failed", map[string]string{"n": "string"})
+					hist = append(hist, c15h{client: ti, name: o.name, kind: "deopt", call: call, ret: s.Stamp()})
 				case "deoptimise":
 					current[o.name]++
 					iv := &c15inval{ver: current[o.name], kind: "deopt", call: s.Stamp()}
@@ -370,6 +493,7 @@ func c15Run(s *sim.Sim, p *sim.Params) {
 					sample = append(sample, fmt.Sprintf("t%d [%d] %s changes to v%d, RecordDeoptimization", ti, s.Stamp(), o.name, iv.ver))
 					j.RecordDeoptimization(o.name, "assumption no longer holds", map[string]string{"n": "int"})
 					iv.ret = s.Stamp()
+					hist = append(hist, c15h{client: ti, name: o.name, kind: "deopt", call: iv.call, ret: iv.ret})
 				case "redefine":
 					current[o.name]++
 					iv := &c15inval{ver: current[o.name], kind: "redefine", call: s.Stamp()}
@@ -399,6 +523,14 @@ func c15Run(s *sim.Sim, p *sim.Params) {
 					for _, x := range others {
 						x.ret = iv.ret
 					}
+					hist = append(hist, c15h{client: ti, name: o.name, kind: "inval", call: iv.call, ret: iv.ret})
+					if o.n == 1 {
+						for _, n := range names {
+							if n != o.name {
+								hist = append(hist, c15h{client: ti, name: n, kind: "inval", call: iv.call, ret: iv.ret})
+							}
+						}
+					}
 				case "getunit":
 					pv := current[o.name]
 					call := s.Stamp()
@@ -406,7 +538,10 @@ func c15Run(s *sim.Sim, p *sim.Params) {
 						if u.Name != o.name {
 							s.Fail("oracle", "wrong-route:GetUnit", fmt.Sprintf("GetUnit(%s) returned unit %s", o.name, u.Name))
 						}
-						judge("GetUnit", o.name, pv, call, u.Bytecode, false)
+						out := judge("GetUnit", o.name, pv, call, u.Bytecode, false)
+						hist = append(hist, c15h{client: ti, name: o.name, kind: "getunit", out: out, call: call, ret: s.Stamp()})
+					} else {
+						hist = append(hist, c15h{client: ti, name: o.name, kind: "getunit", out: 0, call: call, ret: s.Stamp()})
 					}
 				case "noise":
 					for k := 0; k < 4; k++ {
@@ -425,6 +560,50 @@ func c15Run(s *sim.Sim, p *sim.Params) {
 	}
 	if !s.WaitTimeout(time.Hour, hs...) {
 		s.Fail("deadlock", s.BlockedSitesOf(hs...), "JIT calls did not return: "+s.BlockedSummary())
+	}
+	// linearizability of the whole history, per route name, against the sequential cache
+	// specification (return values included: a stale unit written back over a newer one shows up as
+	// a later caller being served a version no sequential order of the calls can explain)
+	for _, name := range names {
+		var ops []porcupine.Operation
+		var lines []string
+		for _, h := range hist {
+			if h.name != name {
+				continue
+			}
+			if h.out > 62 || h.pv > 62 {
+				ops = nil
+				break
+			}
+			ops = append(ops, porcupine.Operation{ClientId: h.client, Input: h, Output: 0, Call: int64(h.call), Return: int64(h.ret)})
+			lines = append(lines, fmt.Sprintf("t%d [%d,%d] %v", h.client, h.call, h.ret, h))
+		}
+		if len(ops) < 2 || len(ops) > 40 {
+			continue
+		}
+		states := map[string]c15state{}
+		key := func(st c15state) string { k := st.encode(); states[k] = st; return k }
+		model := porcupine.Model{
+			Init: func() interface{} { return key(c15state{unit: 1, typed: map[string]uint64{}}) },
+			Step: func(state, in, out interface{}) (bool, interface{}) {
+				ok, ns := c15step(states[state.(string)], in.(c15h))
+				if !ok {
+					return false, state
+				}
+				return true, key(ns)
+			},
+		}
+		s.Probe("history-checked-for-linearizability")
+		name := name
+		s.AfterRun(func() *sim.Violation {
+			switch porcupine.CheckOperationsTimeout(model, ops, 15*time.Second) {
+			case porcupine.Illegal:
+				return &sim.Violation{Class: "oracle", Site: "not-linearizable:jit-cache", Msg: "the calls on route " + name + " (with the versions of the code they were handed) have no sequential explanation: a compile call returns code of the definition it was passed or the cached code, an invalidation empties the cache\n  " + strings.Join(lines, "\n  ")}
+			case porcupine.Unknown:
+				s.Probe("porcupine-inconclusive")
+			}
+			return nil
+		})
 	}
 	st := j.GetStats()
 	if st.Recompilations > 0 {
